@@ -336,7 +336,9 @@ func (w *World) Dial(network, address string) (*Endpoint, error) {
 	if network == "unix" {
 		nodeMissing = w.fs[address] == nil
 	}
-	if l == nil {
+	if l == nil || nodeMissing {
+		// (a Unix listener whose socket file has been unlinked - or whose
+		// directory was removed - is out of reach by path: ENOENT, as on Linux)
 		w.mu.Unlock()
 		e := error(ECONNREFUSED)
 		if nodeMissing {
